@@ -370,7 +370,7 @@ def run_check(prop: str, sim: typing.Any, tier: str, seed: int, workers: int, re
                     v["case"] = res_case
                 agg.add(c["label"], res)
             unknown_sigs = {v["signature"] for v in agg.violations if findings_mod.classify(known, prop, v) is None}
-            if len(unknown_sigs) >= max_unknown or (unknown_sigs and tier == "quick"):
+            if len(unknown_sigs) >= max_unknown or (unknown_sigs and tier == "quick" and not os.environ.get("VERIF_KEEP_GOING")):
                 stop_on_violation = True
             if agg.harness_errors and len(agg.harness_errors) > 5:
                 break
